@@ -6,6 +6,7 @@ import (
 	"fmt"
 	"go/token"
 	"go/types"
+	"math/big"
 	"strings"
 
 	"golang.org/x/tools/go/ssa"
@@ -17,7 +18,7 @@ var modelKeys = []string{
 	"bytes.Equal", "errors.New", "errors.Errorf", "fmt.Errorf", "errors.Wrap", "errors.Wrapf",
 	"fmt.Sprintf", "fmt.Sprint", "iface:error.Error", "strings.Join",
 	"iface:context.Context.Err", "iface:context.Context.Done", "context.WithCancel", "context.Background", "context.TODO",
-	"sort.Slice", "math.Floor", "math.Pow", "math.Ceil", "math.Trunc", "math.Round", "math.Abs", "math.Sqrt", "math.Max", "math.Min", "math.Log2", "math.Exp2", "math.Ldexp", "time.AfterFunc", "(*time.Timer).Stop", "(time.Duration).Nanoseconds",
+	"sort.Slice", "math.Floor", "math.IsNaN", "math.IsInf", "math.Pow", "math.Ceil", "math.Trunc", "math.Round", "math.Abs", "math.Sqrt", "math.Max", "math.Min", "math.Log2", "math.Exp2", "math.Ldexp", "time.AfterFunc", "(*time.Timer).Stop", "(time.Duration).Nanoseconds",
 	"runtime.NumGoroutine", "time.Now", "(time.Time).Sub",
 }
 
@@ -104,6 +105,19 @@ func (f *Frame) modelCall(key string, sig *types.Signature, args []Val, st *Stat
 		}
 		vc.declareFun(name, as, SFP)
 		return Val{sx(name, ts...), SFP, resT(0)}, true
+	case key == "math.IsNaN":
+		return Val{sx("fp.isNaN", args[0].t), SBool, types.Typ[types.Bool]}, true
+	case key == "math.IsInf":
+		// IsInf(f, sign): sign > 0 => +Inf, sign < 0 => -Inf, sign == 0 => either
+		pos := and(sx("fp.isInfinite", args[0].t), sx("fp.isPositive", args[0].t))
+		neg := and(sx("fp.isInfinite", args[0].t), sx("fp.isNegative", args[0].t))
+		sg := args[1].t
+		zero := "0"
+		if strings.HasPrefix(args[1].s, "(_ BitVec") {
+			zero = bvLit(big.NewInt(0), 64)
+			return Val{or(and(sx("bvsge", sg, zero), pos), and(sx("bvsle", sg, zero), neg)), SBool, types.Typ[types.Bool]}, true
+		}
+		return Val{or(and(sx(">=", sg, zero), pos), and(sx("<=", sg, zero), neg)), SBool, types.Typ[types.Bool]}, true
 	case key == "math.Pow":
 		// A-POW: math.Pow(2, k) for integral k in [0,1023] is exactly 2^k, +Inf above; other arguments unconstrained.
 		vc.used["A-POW"] = true
@@ -111,6 +125,8 @@ func (f *Frame) modelCall(key string, sig *types.Signature, args []Val, st *Stat
 		vc.declareFun("math_pow", []Sort{SFP, SFP}, SFP)
 		app := sx("math_pow", args[0].t, args[1].t)
 		vc.assume(implies(sx("fp.eq", args[0].t, fpLit(2)), eq(app, sx("pow2fp", args[1].t))))
+		// and for every base >= 1 and exponent >= 0 the power is at least 1 (possibly +Inf)
+		vc.assume(implies(and(sx("fp.geq", args[0].t, fpLit(1)), sx("fp.geq", args[1].t, fpLit(0))), sx("fp.geq", app, fpLit(1))))
 		return Val{app, SFP, resT(0)}, true
 	}
 	return nil, false
